@@ -530,10 +530,19 @@ impl Formatter for CustomizedFormatter {
     {
         match self.options.bytes_syntax {
             BytesSyntax::R6RS | BytesSyntax::R7RS => {
-                write_scheme_vector(self, writer, VectorType::Byte, bytes, |writer, &octet| {
+                // Byte vectors have no bracket notation, whatever syntax is
+                // chosen for generic vectors.
+                writer.write_all(match self.options.bytes_syntax {
+                    BytesSyntax::R6RS => b"#vu8(",
+                    _ => b"#u8(",
+                })?;
+                for (i, &octet) in bytes.iter().enumerate() {
+                    self.begin_seq_element(writer, i == 0)?;
                     let mut buffer = itoa::Buffer::new();
-                    writer.write_all(buffer.format(octet).as_bytes())
-                })
+                    writer.write_all(buffer.format(octet).as_bytes())?;
+                    self.end_seq_element(writer)?;
+                }
+                writer.write_all(b")")
             }
             BytesSyntax::Elisp => {
                 static OCTAL_CHARS: &[u8] = b"012345678";
